@@ -40,6 +40,11 @@ def obligations(tier):
             obs.append(Ob(id=f'sql.form2.w{wa}.a{lo}', module=M, func='sql_ok', params='a: int, b: int, wb: int', args=f'2, a, {wa}, b, wb, True',
                           pre=[f'{lo} <= a < {hi} and 0 <= b < {na} and 0 <= wb < {nbin}'], timeout=T, group='binary',
                           bound=f'BIN(W{wa}(atom a), atom b): a in [{lo},{hi}), {na} atoms b, {nbin} binary forms'))
+    # a WITH binding that the body does not use, holding a parameter, around bodies that use another parameter
+    obs.append(Ob(id='sql.form2.unused-binding', module=M, func='sql_ok', params='a: int, wa: int, b: int', args=f'2, a, wa, b, {nbin - 1}, True',
+                  pre=[f'0 <= a < {na} and (wa == 5 or wa == 7) and (b == 17 or b == 18 or b == 19 or b == 30 or b == 31)'], timeout=T,
+                  group='binary', bound='with v := <parameter> select W(atom a), W in {LIMIT $n, FILTER .name = $s}: the parameter of the '
+                  'unused binding must still be numbered consistently'))
     was = [0] if quick else [0, 4, 7, 8, 10]
     bsel = '(b == 0 or b == 3 or b == 15)' if quick else f'0 <= b < {na}'
     asel4 = '(a == 0 or a == 3 or a == 15)' if quick else f'0 <= a < {na}'
